@@ -237,19 +237,39 @@ func VerifC11Cycle() {
 		}
 		list += v
 	}
-	grouped := nd.Choice(2) == 1
+	mode := nd.Choice(4)
+	grouped := mode == 1
 	src := "{% for x in a %}{% cycle " + list + " %}{% endfor %}"
 	if grouped {
 		src = "{% for x in a %}{% cycle 'g': " + list + " %}{% cycle 'h': 'u', 'v' %}{% endfor %}"
+	}
+	if mode == 2 { // two tags sharing the unnamed group: one counter, advanced by each tag in turn
+		src = "{% for x in a %}{% cycle " + list + " %}{% cycle 'u', 'v' %}{% endfor %}"
+	}
+	if mode == 3 { // two tags sharing a named group, value lists of different lengths
+		src = "{% for x in a %}{% cycle 'g': " + list + " %}{% cycle 'g': 'u', 'v', 'w', 'z' %}{% endfor %}"
 	}
 	src = src + "|" + src
 	out, err := vRender(src, Bindings{"a": c11Collection(0, l)})
 	nd.Assert(err == nil, "cycle-no-error")
 	one := ""
+	shared := 0
 	for i := 0; i < l; i++ {
-		one += plain[i%nv]
-		if grouped {
-			one += []string{"u", "v"}[i%2]
+		switch mode {
+		case 0:
+			one += plain[i%nv]
+		case 1:
+			one += plain[i%nv] + []string{"u", "v"}[i%2]
+		case 2:
+			one += plain[shared%nv]
+			shared++
+			one += []string{"u", "v"}[shared%2]
+			shared++
+		case 3:
+			one += plain[shared%nv]
+			shared++
+			one += []string{"u", "v", "w", "z"}[shared%4]
+			shared++
 		}
 	}
 	nd.Assert(out == one+"|"+one, "cycle-reference")
@@ -334,4 +354,46 @@ func VerifC11TablerowModifiers() {
 	}
 	nd.Assert(out == want, "tablerow-modifiers-reference")
 	nd.Reach("C11.tablerowmodifiers")
+}
+
+// VerifC11TablerowBreak: continue skips to the next item of a tablerow and break ends it; every
+// visited item is still wrapped in its td, and rows still close after every cols items and after
+// the last item (after a break the open row may or may not be closed: the statement is silent).
+func VerifC11TablerowBreak() {
+	l := 1 + nd.Choice(4)
+	j := nd.IntIn(1, 4)
+	nd.Assume(j <= l)
+	cols := 1 + nd.Choice(3)
+	isBreak := nd.Choice(2) == 0
+	tag := "continue"
+	if isBreak {
+		tag = "break"
+	}
+	src := "{% tablerow x in a cols: c %}<{{x}}{% if forloop.index == j %}{% " + tag + " %}{% endif %}>{% endtablerow %}"
+	out, err := vRender(src, Bindings{"a": c11Collection(0, l), "c": cols, "j": j})
+	nd.Assert(err == nil, "tablerow-break-no-error")
+	want := ""
+	for i := 0; i < l; i++ {
+		row, col := i/cols, i%cols
+		if col == 0 {
+			want += `<tr class="row` + vItoa(row+1) + `">`
+		}
+		want += `<td class="col` + vItoa(col+1) + `"><` + c11Items[i]
+		if i+1 != j {
+			want += ">"
+		}
+		want += `</td>`
+		if i+1 == j && isBreak {
+			break
+		}
+		if (i+1)%cols == 0 || i+1 == l {
+			want += `</tr>`
+		}
+	}
+	if isBreak {
+		nd.Assert(out == want || out == want+"</tr>", "tablerow-break-closes-cell")
+	} else {
+		nd.Assert(out == want, "tablerow-continue-reference")
+	}
+	nd.Reach("C11.tablerowbreak")
 }
